@@ -32,7 +32,7 @@ def read(repo, rel):
 def nat_expr(text):
     """evaluate tiny integer expressions: 16 * 1024, 1 << 10, 0x41727101980"""
     text = text.replace("_", "").strip()
-    if not re.fullmatch(r"[0-9a-fA-Fx\s*+<()-]+", text):
+    if not re.fullmatch(r"[0-9a-fA-Fxb\s*+<()-]+", text):
         raise ValueError(text)
     return int(eval(text, {"__builtins__": {}}))
 
@@ -188,6 +188,31 @@ def main():
     shells = [x.lower() for x in re.findall(r"\b([A-Z][a-z]+)\b", m.group(1))] if m else ["zsh", "bash", "fish", "powershell", "elvish"]
     (status["extracted"] if m else status["fallback"]).append("shellNames")
     defs.append("/-- shells in `Shell::iter()` order: `src/shell.rs` -/\ndef shellNames : List String := [" + ", ".join(json.dumps(x) for x in shells) + "]")
+
+    # ---- C11 peer protocol
+    nat("utPieceLength", "src/peer/message/extended/ut_metadata.rs", r"PIECE_LENGTH\s*:\s*usize\s*=\s*([0-9_]+\s*\*\s*\(\s*1\s*<<\s*[0-9]+\s*\)|[0-9_]+)", 16384, doc="ut_metadata piece length")
+    nat("peerHandshakeLen", "src/peer/handshake.rs", r"const\s+LENGTH\s*:\s*usize\s*=\s*(\d+)", 68, doc="peer handshake length")
+    nat("extensionBit", "src/peer/handshake.rs", r"SUPPORTS_EXTENSION_PROTOCOL\s*:\s*u8\s*=\s*(0b[01_]+|0x[0-9a-fA-F_]+|\d+)", 16, doc="reserved[5] bit for the extension protocol")
+    src = read(repo, "src/peer/handshake.rs")
+    m = re.search(r'HEADER\s*:\s*&\[u8;\s*20\]\s*=\s*b"((?:[^"\\]|\\.)*)"', src)
+    hdr = list(b"\x13BitTorrent protocol")
+    if m:
+        try:
+            hdr = list(eval('b"' + m.group(1) + '"'))
+            status["extracted"].append("peerHeader")
+        except Exception:
+            status["fallback"].append("peerHeader")
+    else:
+        status["fallback"].append("peerHeader")
+    defs.append("/-- peer handshake header: `src/peer/handshake.rs` -/\ndef peerHeader : List UInt8 := [" + ", ".join(str(x) for x in hdr) + "]")
+    src = read(repo, "src/peer/message/flavour.rs")
+    m = re.search(r"Extended\s*=\s*(\d+)", src)
+    defs.append(f"/-- message id of extended messages: `src/peer/message/flavour.rs` -/\ndef extendedFlavour : Nat := {int(m.group(1)) if m else 20}")
+    (status["extracted"] if m else status["fallback"]).append("extendedFlavour")
+    src = read(repo, "src/peer/message/extended/handshake.rs")
+    m = re.search(r"with_message\(String::from\(ut_metadata::UtMetadata::NAME\),\s*(\d+)\)", src)
+    defs.append(f"/-- the id imdl advertises for ut_metadata: `src/peer/message/extended/handshake.rs` -/\ndef ownUtMetadataId : Nat := {int(m.group(1)) if m else 1}")
+    (status["extracted"] if m else status["fallback"]).append("ownUtMetadataId")
 
     body = "/-! GENERATED by tools/gen_consts.py from /repo sources on every check run. Do not edit. -/\nnamespace Imdlv.Consts\n\n" + "\n\n".join(defs) + "\n\nend Imdlv.Consts\n"
     old = None
